@@ -115,3 +115,22 @@ Qed.
 Lemma Z_land_of_N a b : Z.land (Z.of_N a) (Z.of_N b) = Z.of_N (N.land a b).
 Proof. destruct a, b; reflexivity. Qed.
 
+
+(* ---------- phase 2: indexing ---------- *)
+Lemma index_lt {A} (l : list A) i x : index l i = Ok x -> i < len l.
+Proof.
+  unfold index. destruct (nth_error l (N.to_nat i)) eqn:E; [|discriminate]. intros _.
+  assert (nth_error l (N.to_nat i) <> None) as H by congruence. apply nth_error_Some in H. unfold len. lia.
+Qed.
+
+Lemma gindex_index b i : gindex b (Z.of_N i) = do x <- index b i; Ok (Z.of_N x).
+Proof. unfold gindex. destruct (Z.ltb_spec (Z.of_N i) 0); [lia|]. rewrite N2Z.id. reflexivity. Qed.
+
+Lemma index_wf (l : bytes) i x : wf l -> index l i = Ok x -> x < 256.
+Proof.
+  intros W. unfold index. destruct (nth_error l (N.to_nat i)) eqn:E; [|discriminate].
+  intros H. inversion H; subst. apply nth_error_In in E. unfold wf in W. rewrite Forall_forall in W. apply W, E.
+Qed.
+
+Lemma index_not_err {A} (l : list A) i e : index l i <> Err e.
+Proof. unfold index. destruct (nth_error l (N.to_nat i)); discriminate. Qed.
